@@ -1,13 +1,18 @@
 package pure
 
 import (
+	"crypto/hmac"
+	"crypto/sha256"
+	"encoding/binary"
 	"encoding/hex"
 	"fmt"
 	"math/big"
+	"reflect"
 	"strings"
 	"testing"
 	"testing/synctest"
 	"time"
+	"unsafe"
 
 	"github.com/pion/turn/v5/internal/server"
 	"github.com/pion/turn/v5/internal/zzverif/vkit"
@@ -108,6 +113,38 @@ func runNonceInner(c *NonceCase) (string, string) { //nolint:cyclop
 	}
 	if raw == nil || len(raw) < tsLen+2 {
 		return "nonce-format", fmt.Sprintf("%s: cannot decode nonce %q", what, nonce)
+	}
+	// dated nonces with this instance's genuine MAC (what the instance itself would have minted
+	// at another time - a clock that was stepped back leaves such nonces in clients' hands):
+	// the present one must be accepted (self-test of the forging code), future ones rejected
+	if key := managerKey(mgr); key != nil {
+		mintAt := func(at time.Time) string {
+			ts := make([]byte, 8)
+			if c.HMACLen == 0 {
+				binary.BigEndian.PutUint64(ts, uint64(at.UnixMilli())) //nolint:gosec
+			} else {
+				binary.BigEndian.PutUint64(ts, uint64(at.Unix()/60)) //nolint:gosec
+				ts = ts[4:]
+			}
+			h := hmac.New(sha256.New, key)
+			_, _ = h.Write(ts)
+			mac := h.Sum(nil)
+			if c.HMACLen != 0 {
+				mac = mac[:c.HMACLen]
+			}
+
+			return encodeNonce(c, append(append([]byte{}, ts...), mac...))
+		}
+		if self := mintAt(minted); !strings.EqualFold(strings.TrimLeft(self, "0"), strings.TrimLeft(nonce, "0")) {
+			return "harness", fmt.Sprintf("%s: the harness cannot reproduce the instance's own nonce (%q vs %q)", what, self, nonce)
+		}
+		for _, ahead := range []time.Duration{time.Minute, 2 * time.Minute, 59 * time.Minute, time.Hour, 61 * time.Minute, 24 * time.Hour, 366 * 24 * time.Hour} {
+			if err := mgr.Validate(mintAt(minted.Add(ahead))); err == nil {
+				return "future-dated-nonce-accepted", fmt.Sprintf("%s: a nonce dated %v ahead of the clock (genuine MAC) is accepted", what, ahead)
+			}
+		}
+	} else {
+		return "harness", what + ": cannot reach the instance key"
 	}
 	// same nonce in other spellings must stay valid
 	if c.HMACLen != 0 {
@@ -216,6 +253,18 @@ func TestC03Nonce(t *testing.T) {
 
 		return
 	}
+	for _, f := range r.RegressFiles(".nonce.json") {
+		var c NonceCase
+		if err := vkit.LoadJSON(f, &c); err != nil {
+			t.Fatalf("bad regress file %s: %v", f, err)
+		}
+		if kind, msg := do(&c, ""); kind != "" {
+			r.Violate(kind, "regress "+f+": "+msg, &c)
+		}
+	}
+	if r.Violations() > 0 {
+		return
+	}
 	// every MAC length, at the age classes around the horizon
 	for n := 0; n <= 32; n++ {
 		if n == 1 || n%max(r.NShards, 1) != r.Shard%max(r.NShards, 1) {
@@ -252,4 +301,23 @@ func TestC03Nonce(t *testing.T) {
 			rt.Fatalf("C03 %s", kind)
 		}
 	})
+}
+
+// managerKey reads the unexported HMAC key of a nonce manager (NonceHash / ShortNonceHash).
+func managerKey(mgr server.NonceManager) (key []byte) {
+	defer func() {
+		if recover() != nil {
+			key = nil
+		}
+	}()
+	v := reflect.ValueOf(mgr)
+	if v.Kind() != reflect.Ptr || v.Elem().Kind() != reflect.Struct {
+		return nil
+	}
+	f := v.Elem().FieldByName("key")
+	if !f.IsValid() || f.Kind() != reflect.Slice {
+		return nil
+	}
+
+	return reflect.NewAt(f.Type(), unsafe.Pointer(f.UnsafeAddr())).Elem().Bytes()
 }
